@@ -82,10 +82,38 @@ func c13GenInj(t *rapid.T) c13InjCase {
 			c.Rng = append(c.Rng, c13Op{K: "read", N: lens("n")})
 		}
 	}
-	total := 1 + len(c.Ops) + len(c.Rng)
+	// choose among the mutations that are applicable to this history
+	// (construction, not rejection); flipping a bit of the application label
+	// always is.
+	base, tail := c13Materialise(c)
+	type cand struct {
+		kind string
+		at   int
+	}
+	var cands []cand
+	for _, k := range c13MutKinds {
+		for at := range base {
+			if _, _, _, ok := c13ApplyMut(base, tail, c13Mut{Kind: k, At: at}); ok {
+				cands = append(cands, cand{k, at})
+			}
+		}
+	}
+	kinds := map[string][]int{}
+	var present []string
+	for _, k := range c13MutKinds {
+		for _, cd := range cands {
+			if cd.kind == k {
+				kinds[k] = append(kinds[k], cd.at)
+			}
+		}
+		if len(kinds[k]) > 0 {
+			present = append(present, k)
+		}
+	}
+	kind := rapid.SampledFrom(present).Draw(t, "mkind")
 	c.Mut = c13Mut{
-		Kind: rapid.SampledFrom(c13MutKinds).Draw(t, "mkind"),
-		At:   rapid.IntRange(0, total-1).Draw(t, "mat"),
+		Kind: kind,
+		At:   rapid.SampledFrom(kinds[kind]).Draw(t, "mat"),
 		Pos:  rapid.IntRange(0, 699).Draw(t, "mpos"),
 		Bit:  rapid.IntRange(0, 7).Draw(t, "mbit"),
 	}
